@@ -267,7 +267,7 @@ def badIndirect (right : Str) : Bool :=
 
 theorem translateExtInd_noOff {o : Operand} {r : InstrRow} {c : Nat} {right : Str}
     (hc : r.ind = some c) (h0 : c ≠ 0) (hc' : c < 65536) (hna : o.value.isAddress = false)
-    (hnn : o.value.isNumeric = false) (hl : o.left = .text []) (hr : o.right = some right)
+    (hne : o.value.isAddrExpr = false) (hnn : o.value.isNumeric = false) (hl : o.left = .text []) (hr : o.right = some right)
     (hvr : validIndexReg right = true) (hpc : (right == str "PCR") = false)
     (hbad : badIndirect right = false) (hp : extNoOffPost right < 256) :
     translateExtIndirect o r = .ok { opCode := opv c, postByte := .numeric (extNoOffPost right) (some 2) .direct false,
@@ -277,31 +277,32 @@ theorem translateExtInd_noOff {o : Operand} {r : InstrRow} {c : Nat} {right : St
   simp only [badIndirect, Bool.or_eq_false_iff, beq_eq_false_iff_ne] at hbad
   obtain ⟨⟨⟨⟨⟨⟨⟨b1, b2⟩, b3⟩, b4⟩, b5⟩, b6⟩, b7⟩, b8⟩ := hbad
   have hpc' : ¬ right = str "PCR" := by simpa using hpc
-  simp only [translateExtIndirect, hc, hl, hr, opVal_ok hc', hna, hnn]
+  simp only [translateExtIndirect, hc, hl, hr, opVal_ok hc', hna, hne, hnn]
   cases a : hasSub ['-'] right <;> cases b : hasSub ['+'] right <;> cases d : hasSub (str "++") right <;>
     cases e : hasSub (str "--") right <;> simp [a, b, d, e, h0, b1, b2, b3, b4, b5, b6, b7, b8, hvr, hpc'] at hn ⊢ <;>
     simp [hn] <;> rfl
 
 theorem translateExtInd_bad {o : Operand} {r : InstrRow} {c : Nat} {right : Str}
     (hc : r.ind = some c) (h0 : c ≠ 0) (hc' : c < 65536) (hna : o.value.isAddress = false)
-    (hnn : o.value.isNumeric = false) (hl : o.left = .text []) (hr : o.right = some right)
+    (hne : o.value.isAddrExpr = false) (hnn : o.value.isNumeric = false) (hl : o.left = .text []) (hr : o.right = some right)
     (hvr : validIndexReg right = true) (hpc : (right == str "PCR") = false)
     (hpm : (hasSub ['-'] right || hasSub ['+'] right) = true) (hbad : badIndirect right = true) :
     translateExtIndirect o r = .error .operandType := by
   simp only [badIndirect, Bool.or_eq_true, beq_iff_eq] at hbad
   simp only [Bool.or_eq_true] at hpm
-  simp only [translateExtIndirect, hc, hl, hr, opVal_ok hc', hna, hnn]
+  simp only [translateExtIndirect, hc, hl, hr, opVal_ok hc', hna, hne, hnn]
   rcases hbad with ((((((hb | hb) | hb) | hb) | hb) | hb) | hb) | hb <;> subst hb <;> simp [h0, validIndexReg, isXYUS, str] <;> rfl
 
 theorem enc_extInd_noOff {o : Operand} {r : InstrRow} {c : Nat} {right : Str} {i : Idx}
     (hk : o.kind = .extIndirect) (hc : r.ind = some c) (hl : lookup c = some (opOf r.mnemonic, .idx))
-    (hs : r.indSz = opcodeLen c + 1) (hna : o.value.isAddress = false) (hnn : o.value.isNumeric = false)
+    (hs : r.indSz = opcodeLen c + 1) (hna : o.value.isAddress = false) (hne : o.value.isAddrExpr = false)
+    (hnn : o.value.isNumeric = false)
     (hle : o.left = .text []) (hr : o.right = some right)
     (hvr : validIndexReg right = true) (hpc : (right == str "PCR") = false) (hbad : badIndirect right = false)
     (hp : extNoOffPost right < 256) (hdec : decodePostByte [extNoOffPost right] = some (i, 1)) :
     Encodes o r (.idx i) := by
   have h0 := cell_ne_zero hl (by decide)
-  have ht := translateExtInd_noOff hc h0 (cell_lt hl) hna hnn hle hr hvr hpc hbad hp
+  have ht := translateExtInd_noOff hc h0 (cell_lt hl) hna hne hnn hle hr hvr hpc hbad hp
   exact enc_idx_gen hl (by simpa [translateOperand, hk] using ht) rfl rfl rfl hp rfl (by simp [hs]) hdec
 
 /-! ### accumulator offsets -/
@@ -311,52 +312,59 @@ def accCode (l : Str) : Nat := if l == ['A'] then 0x06 else if l == ['B'] then 0
 theorem translateIndexed_acc {o : Operand} {r : InstrRow} {c : Nat} {l right : Str}
     (hc : r.ind = some c) (h0 : c ≠ 0) (hc' : c < 65536) (hl : o.left = .text l) (habd : isABD l = true)
     (hr : o.right = some right) (hvr : validIndexReg right = true) (hpc : (right == str "PCR") = false)
+    (hpm : (hasSub ['+'] right || hasSub ['-'] right) = false)
     (hp : regBits right ||| 0x80 ||| accCode l < 256) :
     translateIndexed o r = .ok { opCode := opv c, postByte := .numeric (regBits right ||| 0x80 ||| accCode l) (some 2) .direct false,
                                  size := r.indSz, maxSize := r.indSz } := by
   have hn := numV_byte hp
   have hpc' : ¬ right = str "PCR" := by simpa using hpc
+  simp only [Bool.or_eq_false_iff] at hpm
   simp only [isABD, Bool.or_eq_true, beq_iff_eq] at habd
   rcases habd with (rfl | rfl) | rfl <;>
-    simp [translateIndexed, hc, h0, hl, hr, opVal_ok hc', isABD, accCode, hvr, hpc'] at hn ⊢ <;> simp [hn] <;> rfl
+    simp [translateIndexed, hc, h0, hl, hr, opVal_ok hc', isABD, accCode, hvr, hpc', hpm.1, hpm.2] at hn ⊢ <;> simp [hn] <;> rfl
 
 theorem enc_indexed_acc {o : Operand} {r : InstrRow} {c : Nat} {l right : Str} {i : Idx}
     (hk : o.kind = .indexed) (hc : r.ind = some c) (hlk : lookup c = some (opOf r.mnemonic, .idx))
     (hs : r.indSz = opcodeLen c + 1) (hl : o.left = .text l) (habd : isABD l = true) (hr : o.right = some right)
     (hvr : validIndexReg right = true) (hpc : (right == str "PCR") = false)
+    (hpm : (hasSub ['+'] right || hasSub ['-'] right) = false)
     (hp : regBits right ||| 0x80 ||| accCode l < 256)
     (hdec : decodePostByte [regBits right ||| 0x80 ||| accCode l] = some (i, 1)) :
     Encodes o r (.idx i) := by
   have h0 := cell_ne_zero hlk (by decide)
-  have ht := translateIndexed_acc hc h0 (cell_lt hlk) hl habd hr hvr hpc hp
+  have ht := translateIndexed_acc hc h0 (cell_lt hlk) hl habd hr hvr hpc hpm hp
   exact enc_idx_gen hlk (by simpa [translateOperand, hk] using ht) rfl rfl rfl hp rfl (by simp [hs]) hdec
 
 def accCodeInd (l : Str) : Nat := if l == ['A'] then 0x16 else if l == ['B'] then 0x15 else 0x1B
 
 theorem translateExtInd_acc {o : Operand} {r : InstrRow} {c : Nat} {l right : Str}
     (hc : r.ind = some c) (h0 : c ≠ 0) (hc' : c < 65536) (hna : o.value.isAddress = false)
-    (hnn : o.value.isNumeric = false) (hl : o.left = .text l) (habd : isABD l = true)
+    (hne : o.value.isAddrExpr = false) (hnn : o.value.isNumeric = false) (hl : o.left = .text l) (habd : isABD l = true)
     (hr : o.right = some right) (hvr : validIndexReg right = true) (hpc : (right == str "PCR") = false)
+    (hpm : (hasSub ['+'] right || hasSub ['-'] right) = false)
     (hp : 0x80 ||| regBits right ||| accCodeInd l < 256) :
     translateExtIndirect o r = .ok { opCode := opv c, postByte := .numeric (0x80 ||| regBits right ||| accCodeInd l) (some 2) .direct false,
                                      size := r.indSz, maxSize := r.indSz } := by
   have hn := numV_byte hp
   have hpc' : ¬ right = str "PCR" := by simpa using hpc
+  simp only [Bool.or_eq_false_iff] at hpm
   simp only [isABD, Bool.or_eq_true, beq_iff_eq] at habd
   rcases habd with (rfl | rfl) | rfl <;>
-    simp [translateExtIndirect, hc, h0, hl, hr, opVal_ok hc', isABD, accCodeInd, hna, hnn, hvr, hpc'] at hn ⊢ <;>
+    simp [translateExtIndirect, hc, h0, hl, hr, opVal_ok hc', isABD, accCodeInd, hna, hne, hnn, hvr, hpc', hpm.1, hpm.2] at hn ⊢ <;>
     simp [hn] <;> rfl
 
 theorem enc_extInd_acc {o : Operand} {r : InstrRow} {c : Nat} {l right : Str} {i : Idx}
     (hk : o.kind = .extIndirect) (hc : r.ind = some c) (hlk : lookup c = some (opOf r.mnemonic, .idx))
-    (hs : r.indSz = opcodeLen c + 1) (hna : o.value.isAddress = false) (hnn : o.value.isNumeric = false)
+    (hs : r.indSz = opcodeLen c + 1) (hna : o.value.isAddress = false) (hne : o.value.isAddrExpr = false)
+    (hnn : o.value.isNumeric = false)
     (hl : o.left = .text l) (habd : isABD l = true) (hr : o.right = some right)
     (hvr : validIndexReg right = true) (hpc : (right == str "PCR") = false)
+    (hpm : (hasSub ['+'] right || hasSub ['-'] right) = false)
     (hp : 0x80 ||| regBits right ||| accCodeInd l < 256)
     (hdec : decodePostByte [0x80 ||| regBits right ||| accCodeInd l] = some (i, 1)) :
     Encodes o r (.idx i) := by
   have h0 := cell_ne_zero hlk (by decide)
-  have ht := translateExtInd_acc hc h0 (cell_lt hlk) hna hnn hl habd hr hvr hpc hp
+  have ht := translateExtInd_acc hc h0 (cell_lt hlk) hna hne hnn hl habd hr hvr hpc hpm hp
   exact enc_idx_gen hlk (by simpa [translateOperand, hk] using ht) rfl rfl rfl hp rfl (by simp [hs]) hdec
 
 end CoCo.Asm
